@@ -56,6 +56,10 @@ pub fn leak_of_history(cfg: &Cfg, seed: u64, calls: &[Call]) -> isize {
         for c in calls {
             match c {
                 Call::Reset => g.reset(),
+                Call::SetRange(a, b) => {
+                    g.min_opcodes = *a;
+                    g.max_opcodes = *b;
+                }
                 Call::Bytes(b) => {
                     let r = catch_unwind(AssertUnwindSafe(|| g.generate_from_arbitrary(b)));
                     drop(r);
